@@ -35,10 +35,10 @@ def bound_for(c, **kw):
   from vf.e2 import check, ir
   try:
     _sc, sysm = check.build(SCN, dict(kinds=tuple(c), **kw))
-    nops = sum(1 for p in sysm.programs for n in p.nodes if isinstance(n, ir.Op))
+    nops = sum(1 for p in sysm.programs for n in p.nodes if isinstance(n, ir.Op) and (p.tid, n.id) not in sysm.invisible)      # steps are taken at visible operations
   except Exception:
     nops = 0          # a translation error is reported by the queries themselves
-  return max(13 * len(c), min(nops + 2, 30 * len(c)))
+  return max(13 * len(c), min(nops + 2 * len(c) + 2, 30 * len(c)))
 
 
 def combos(tier):
